@@ -247,8 +247,9 @@ class Gen:
         if passed:
             a = self.name("self")
             p["args"].append(a)
+            # (gfortran rejects a separate INTENT statement for a CLASS dummy: keep attributes on the declaration)
             p["decls"].append({"d": "var", "ts": {"base": passed[0], "proto": passed[1]}, "attrs": [], "dimattr": None,
-                               "intent": "inout", "optional": False, "parameter": False, "access": None,
+                               "intent": "inout", "optional": False, "parameter": False, "access": None, "no_stmt": True,
                                "ents": [{"name": a, "dim": None, "init": None, "points": False, "doc": self.doc(("variable", a))}]})
         if sig is not None:
             for ts in sig:
